@@ -486,3 +486,17 @@ pub fn clause_covers(v: &dyn RankView, u: &Conj, c: &Conj) -> bool {
 pub fn policy_covers(v: &dyn RankView, user: &[Conj], enc: &[Conj]) -> bool {
     enc.iter().any(|c| user.iter().any(|u| clause_covers(v, u, c)))
 }
+
+/// A fixed large structure: 4 dimensions, 7*6*5*3 = 630 rights (count fields need two LEB128
+/// bytes), one attribute name and one dimension name longer than 127 bytes.
+pub fn big_spec() -> StructSpec {
+    let long_attr = format!("attribute-with-a-very-long-name-{}", "x".repeat(110));
+    let long_dim = format!("Dimension {}", "long ".repeat(30)).trim().to_string();
+    let mk = |name: &str, hier: bool, n: usize, hyb_every: usize, seed: u16| DimSpec {
+        name: name.to_string(),
+        hier,
+        attrs: (0..n).map(|i| (if i == 1 && name == "SEC" { long_attr.clone() } else { format!("{}{}", name.chars().next().unwrap().to_ascii_lowercase(), i) }, hyb_every > 0 && i % hyb_every == 0)).collect(),
+        order_seed: seed,
+    };
+    StructSpec { dims: vec![mk("SEC", true, 6, 3, 11), mk("DPT", false, 5, 0, 0), mk(&long_dim, true, 4, 2, 5), mk("CTR", false, 2, 0, 0)] }
+}
